@@ -367,6 +367,7 @@ func vPlain(name string, n int) string {
 		c := s[i]
 		vAssume(vAnd(c > ' ', c < 0x7f))
 		vAssume(vAnd(vAnd(c != '\'', c != '"'), vAnd(c != '\\', c != 1)))
+		vAssume(c != ',') // -k and -S arguments are comma-separated lists by design
 	}
 	return s
 }
@@ -507,6 +508,34 @@ func VH_RoundTrip() {
 		return
 	}
 	same := len(w1) == len(w2)
+	// recorded findings, keyed by a predicate over the rule that was built
+	kf := ""
+	if sr, ok := r.(*rule.SyscallRule); ok {
+		watchShaped, hasPerm := len(sr.Syscalls) == 0 || (len(sr.Syscalls) == 1 && sr.Syscalls[0] == "all"), false
+		for i, f := range sr.Filters {
+			switch f.LHS {
+			case "perm":
+				hasPerm = true
+			case "path", "dir", "key":
+			default:
+				watchShaped = false
+			}
+			if f.LHS == "arch" && i > 0 {
+				kf = "C07-arch-not-first-field"
+			}
+		}
+		if watchShaped && hasPerm {
+			kf = "C07-watch-shaped-syscall-rule"
+		}
+	}
+	if kf != "" && vKF(kf) {
+		eq := same
+		for i := 0; same && i < len(w1); i++ {
+			eq = vAnd(eq, w1[i] == w2[i])
+		}
+		vKnown(kf, eq)
+		return
+	}
 	vAssert(same, "C07/re-encoded-rule-differs")
 	for i := 0; same && i < len(w1); i++ {
 		vAssert(w1[i] == w2[i], "C07/re-encoded-rule-differs")
